@@ -6,6 +6,7 @@ package logicalplan
 import (
 	"fmt"
 
+	"github.com/prometheus/prometheus/model/labels"
 	"github.com/prometheus/prometheus/promql/parser"
 
 	"github.com/thanos-community/promql-engine/api"
@@ -100,6 +101,11 @@ func (m DistributedExecutionOptimizer) Optimize(plan parser.Expr) parser.Expr {
 }
 
 func (m DistributedExecutionOptimizer) makeSubQueries(current *parser.Expr, engines []api.RemoteEngine) Coalesce {
+	// The sub-query is sent to the remote engines as text. Selectors which were
+	// rewritten by the MergeSelectsOptimizer are not valid PromQL, turn them
+	// back into plain vector selectors before rendering the expression.
+	unmergeSelectors(current)
+
 	remoteQueries := Coalesce{
 		Expressions: make(parser.Expressions, len(engines)),
 	}
@@ -110,6 +116,43 @@ func (m DistributedExecutionOptimizer) makeSubQueries(current *parser.Expr, engi
 		}
 	}
 	return remoteQueries
+}
+
+// unmergeSelectors replaces each FilteredSelector in the expression with the
+// vector selector that it was created from: a selector which has the filters
+// as additional matchers selects exactly the series which pass the filters.
+func unmergeSelectors(expr *parser.Expr) {
+	switch node := (*expr).(type) {
+	case *FilteredSelector:
+		matchers := make([]*labels.Matcher, 0, len(node.LabelMatchers)+len(node.Filters))
+		matchers = append(matchers, node.LabelMatchers...)
+		matchers = append(matchers, node.Filters...)
+		selector := *node.VectorSelector
+		selector.LabelMatchers = matchers
+		*expr = &selector
+	case *parser.StepInvariantExpr:
+		unmergeSelectors(&node.Expr)
+	case *parser.MatrixSelector:
+		unmergeSelectors(&node.VectorSelector)
+	case *parser.AggregateExpr:
+		unmergeSelectors(&node.Expr)
+		if node.Param != nil {
+			unmergeSelectors(&node.Param)
+		}
+	case *parser.Call:
+		for i := range node.Args {
+			unmergeSelectors(&node.Args[i])
+		}
+	case *parser.BinaryExpr:
+		unmergeSelectors(&node.LHS)
+		unmergeSelectors(&node.RHS)
+	case *parser.UnaryExpr:
+		unmergeSelectors(&node.Expr)
+	case *parser.ParenExpr:
+		unmergeSelectors(&node.Expr)
+	case *parser.SubqueryExpr:
+		unmergeSelectors(&node.Expr)
+	}
 }
 
 func isDistributive(expr *parser.Expr) bool {
